@@ -250,6 +250,9 @@ def main(argv=None):
         if r['status'] != 'done':
             harness_errors.append('%s: %s: %s' % (r['job'], r['status'], r.get('error', '')[:600]))
             continue
+        if not r.get('obligations'):
+            # a job that decided nothing must not count as a pass (guards against a harness that returns early)
+            harness_errors.append('%s: the job completed without a single obligation (vacuous)' % r['job'])
         for inc in r.get('inconclusive', []):
             inconclusive.append('%s: %s (%s)' % (r['job'], inc['obligation'], inc['reason']))
         reproduced_here = 0
@@ -385,4 +388,16 @@ if __name__ == '__main__':
         sys.exit(0)
     if len(sys.argv) > 1 and sys.argv[1] == '--replay-child':
         sys.exit(replay_one(sys.argv[2], sys.argv[3]))
+    if len(sys.argv) > 1 and sys.argv[1] == '--replay-batch':
+        sys.path.insert(0, VERIF)
+        _mod = importlib.import_module('harness.' + sys.argv[2])
+        _out = []
+        for _item in json.load(open(sys.argv[3])):
+            try:
+                _ok, _detail = _mod.REPLAY[_item['replay']['kind']](_item['replay'])
+            except Exception as _e:      # a replay function that cannot judge the input: not counted as a violation
+                _ok, _detail = False, 'replay function raised %r' % (_e,)
+            _out.append([bool(_ok), json.loads(json.dumps(_detail, default=str))])
+        print('BATCH ' + json.dumps(_out))
+        sys.exit(0)
     sys.exit(main())
